@@ -127,6 +127,37 @@ class ItemObj:
         return "ItemObj(%r)" % sorted(self._d)
 
 
+class Gen:
+    """One-shot iterable like a generator (no length, no length hint), but
+    with a text form that does not contain a memory address: two renderings
+    that insert it as text stay comparable."""
+
+    def __init__(self, items):
+        self._g = (x for x in items)
+
+    def __iter__(self):
+        return self
+
+    def __next__(self):
+        return next(self._g)
+
+    def __repr__(self):
+        return "<gen>"
+
+
+class Iter(Gen):
+    """Like a list iterator: one-shot, with a length hint."""
+
+    def __init__(self, items):
+        self._g = iter(items)
+
+    def __length_hint__(self):
+        return self._g.__length_hint__()
+
+    def __repr__(self):
+        return "<iter>"
+
+
 def instantiate(d, encoding="utf-8"):
     k = d[0]
     if k == "none":
@@ -148,12 +179,11 @@ def instantiate(d, encoding="utf-8"):
     if k == "tuple":
         return tuple(instantiate(x, encoding) for x in d[1])
     if k == "gen":
-        items = [instantiate(x, encoding) for x in d[1]]
-        return (x for x in items)
+        return Gen([instantiate(x, encoding) for x in d[1]])
     if k == "range":
         return range(d[1])
     if k == "iter":
-        return iter([instantiate(x, encoding) for x in d[1]])
+        return Iter([instantiate(x, encoding) for x in d[1]])
     if k == "userlist":
         import collections
         return collections.UserList(instantiate(x, encoding) for x in d[1])
